@@ -366,7 +366,15 @@ func c13Gen(t *rapid.T) C13Case {
 	for {
 		d := pick(t, "defect", c13Defects)
 		if s := applyDefect(t, g, d); s != "" {
-			return C13Case{Pattern: Str(s), Valid: false, Defect: d}
+			c := C13Case{Pattern: Str(s), Valid: false, Defect: d}
+			if chance(t, "badcompanions", 35) {
+				// the defective string next to valid entries (often the single asterisk) at any position
+				for i, n := 0, intIn(t, "nbadcomp", 1, 3); i < n; i++ {
+					c.Companions = append(c.Companions, Str(pick(t, "badcomp", []string{"*", "*", "https://example.com", "https://*.example.com:*", "http://localhost:8080", g.String()})))
+				}
+				c.Pos = uniform(t, "badpos", len(c.Companions)+1)
+			}
+			return c
 		}
 	}
 }
@@ -455,6 +463,27 @@ func c13Check(c C13Case, rec *Recorder) *Disc {
 	if n != 1 {
 		return discf("pattern %q (defect %s): %d errors reported instead of 1: %v", p, c.Defect, n, err)
 	}
+	if len(c.Companions) > 0 {
+		// the defect is reported wherever the string sits in the list and whatever is listed next to it
+		pos := min(max(c.Pos, 0), len(c.Companions))
+		list := append(append(append([]Str{}, c.Companions[:pos]...), c.Pattern), c.Companions[pos:]...)
+		cfg2 := Cfg{Origins: list, TolPSL: true, TolInsecure: true}
+		m2, err2 := cors.NewMiddleware(cfg2.Cors())
+		rec.Eval(1)
+		rec.Class("defect-with-companions")
+		if err2 == nil || m2 != nil {
+			return discf("pattern %q carries the documented defect %q but the list %q is accepted", p, c.Defect, ss(list))
+		}
+		named := false
+		for e := range cfgerrors.All(err2) {
+			if u, ok := e.(*cfgerrors.UnacceptableOriginPatternError); ok && u != nil && u.Value == p {
+				named = true
+			}
+		}
+		if !named {
+			return discf("pattern %q (defect %s) listed among %q: the list is rejected but no UnacceptableOriginPatternError names the string: %v", p, c.Defect, ss(list), err2)
+		}
+	}
 	return nil
 }
 
@@ -462,7 +491,7 @@ func c13Prop() Prop[C13Case] {
 	return Prop[C13Case]{ID: "C13", Gen: c13Gen, Check: c13Check,
 		Rule: "generator: patterns built from the documented grammar (scheme up to 64 bytes incl. near-'file' schemes; LDH domains up to exactly 253 bytes, 63-byte labels, Punycode, trailing dot; IPv4/IPv6 canonical literals via net/netip; *. before domains up to 251 bytes; " +
 			"ports absent/*/1..65535/other scheme's default; a forced 'every maximum at once' branch: 64-byte scheme + 253-byte domain + trailing dot + 5-digit port) - valid by construction - and 36 single-defect mutations of them - invalid by construction. " +
-			"Oracle: valid => accepted, wildcard-free patterns match themselves verbatim (GET and preflight), wildcard patterns match an instance, and (40% of valid cases) the same when the pattern is listed at any position among 1-5 companion patterns (the same host under other schemes and ports, ancestor domains plain or under a wildcard, descendants, siblings, or unrelated valid patterns): the list is accepted and every wildcard-free member matches itself; invalid => exactly one *UnacceptableOriginPatternError with Value == the string, Reason in {invalid, prohibited} (prohibited for null and file). " +
+			"Oracle: valid => accepted, wildcard-free patterns match themselves verbatim (GET and preflight), wildcard patterns match an instance, and (40% of valid cases) the same when the pattern is listed at any position among 1-5 companion patterns (the same host under other schemes and ports, ancestor domains plain or under a wildcard, descendants, siblings, or unrelated valid patterns): the list is accepted and every wildcard-free member matches itself; invalid => exactly one *UnacceptableOriginPatternError with Value == the string, Reason in {invalid, prohibited} (prohibited for null and file); and (35% of invalid cases) listed at any position among 1-3 valid entries (often the single asterisk) the list is rejected with an error naming the string. " +
 			"non-trivial = valid pattern with a component at a documented maximum, an IP literal, Punycode or trailing dot, or any invalid pattern; distinct by pattern string.",
 		Assumptions: []string{"grey zones not generated: https with IP host, '_' in schemes or labels, hyphens in label positions 3-4, TLD starting with a digit, *. + 251-byte domain + trailing dot"}}
 }
